@@ -89,6 +89,8 @@ class Engine:
         self.contracts = {}           # qualname -> callable(E, args(list), kwargs) applied instead of inlining
         self.loop_specs = {}          # (qualname, ordinal) -> spec object
         self.debug_flag = True        # value of __debug__
+        self.merge_ifs = False        # units that walk long loops switch if-merging on
+        self.trace_merge = False
         self.solver_timeout_ms = solver_timeout_ms
         self.obligations = []
         self.undecided = []           # (unit, reason)
@@ -865,7 +867,15 @@ class Engine:
         return items
 
     def st_If(self, s, fr):
-        if self.branch(self.truth(self.eval(s.test, fr))):
+        c = self.truth(self.eval(s.test, fr))
+        if bool_lit(c) is None and self.merge_ifs:
+            d = self.decide(c)
+            if d is None:
+                if self._try_merge_if(s, fr, c):
+                    return
+            else:
+                c = z3.BoolVal(d)
+        if self.branch(c):
             self.exec_block(s.body, fr)
         else:
             self.exec_block(s.orelse, fr)
@@ -1290,9 +1300,114 @@ class Engine:
         return v
 
     def ex_IfExp(self, e, fr):
-        if self.branch(self.truth(self.eval(e.test, fr))):
+        c = self.truth(self.eval(e.test, fr))
+        if bool_lit(c) is None and self._simple_expr(e.body) and self._simple_expr(e.orelse):
+            # both arms are side-effect free: evaluate both and merge instead of forking the path
+            try:
+                saved = self.no_fork
+                self.no_fork = True
+                try:
+                    a = self.eval(e.body, fr)
+                    b = self.eval(e.orelse, fr)
+                finally:
+                    self.no_fork = saved
+                return merge_values(c, a, b)
+            except (Unsupported, PyRaise):
+                pass
+        if self.branch(c):
             return self.eval(e.body, fr)
         return self.eval(e.orelse, fr)
+
+    def _simple_expr(self, e):
+        return isinstance(e, (ast.Constant, ast.Name)) or (isinstance(e, ast.UnaryOp) and self._simple_expr(e.operand))
+
+    # ---- if-merging: a symbolic `if` whose arms only assign is executed on both sides and the states are merged
+    def _try_merge_if(self, s, fr, c):
+        if self.no_fork:
+            return False
+        snap_loc = dict(fr.locals)
+        snap_heap = dict(self.heap)
+        snap_pc = (list(self.pc), set(self._pc_ids))
+        snap_obs = len(self.obligations)
+        snap_misc = (self._oid, dict(self._fresh), len(self.worklist_add), len(self.decisions), list(self.stdout), dict(self.ghost), len(self.sigmas))
+        results = []
+        ok = True
+        for arm, cond in ((s.body, c), (s.orelse, z3.Not(c))):
+            fr.locals.clear()
+            fr.locals.update(snap_loc)
+            self.heap = dict(snap_heap)
+            self.pc, self._pc_ids = list(snap_pc[0]), set(snap_pc[1])
+            self.fact(cond)
+            self.no_fork = True
+            try:
+                self.exec_block(arm, fr)
+            except (Unsupported, PyRaise, ReturnSig, BreakSig, ContinueSig, PathEnd) as ex:
+                ok = False
+                if self.trace_merge:
+                    print('merge abort at line', s.lineno, type(ex).__name__, str(ex)[:100])
+            finally:
+                self.no_fork = False
+            if not ok or len(self.stdout) != len(snap_misc[4]) or len(self.decisions) != snap_misc[3] or len(self.worklist_add) != snap_misc[2]:
+                ok = False
+                break
+            results.append((dict(fr.locals), dict(self.heap), list(self.pc)))
+        if ok:
+            (lt, ht, pct), (lf, hf, pcf) = results
+            try:
+                merged_loc = {}
+                for k in set(lt) | set(lf):
+                    if k in lt and k in lf:
+                        merged_loc[k] = lt[k] if lt[k] is lf[k] else merge_values(c, lt[k], lf[k])
+                    else:
+                        merged_loc[k] = VUnknown('%s assigned on one side of a merged if' % k)
+                merged_heap = {}
+                for oid in set(ht) | set(hf):
+                    a, b = ht.get(oid), hf.get(oid)
+                    if a is None or b is None:
+                        merged_heap[oid] = a if b is None else b      # object created on one side only (unreachable from the other)
+                        continue
+                    if a is b:
+                        merged_heap[oid] = a
+                        continue
+                    cell = {}
+                    for f in set(a) | set(b):
+                        if f not in a or f not in b:
+                            raise Unsupported('field created on one side of a merged if')
+                        cell[f] = a[f] if a[f] is b[f] else merge_values(c, a[f], b[f]) if isinstance(a[f], V) and isinstance(b[f], V) else self._same_or_fail(a[f], b[f])
+                    merged_heap[oid] = cell
+            except Unsupported:
+                ok = False
+        if not ok:
+            # roll back completely and let the caller fork
+            fr.locals.clear()
+            fr.locals.update(snap_loc)
+            self.heap = dict(snap_heap)
+            self.pc, self._pc_ids = snap_pc
+            del self.obligations[snap_obs:]
+            self._oid, self._fresh = snap_misc[0], snap_misc[1]
+            del self.worklist_add[snap_misc[2]:]
+            self.stdout = snap_misc[4]
+            self.ghost = snap_misc[5]
+            del self.sigmas[snap_misc[6]:]
+            return False
+        fr.locals.clear()
+        fr.locals.update(merged_loc)
+        self.heap = merged_heap
+        # universally valid facts discovered in either arm are kept, the arm conditions themselves are not
+        self.pc, self._pc_ids = snap_pc
+        cid, ncid = c.get_id(), None
+        for f in pct + pcf:
+            if f.get_id() in self._pc_ids:
+                continue
+            if f.eq(c) or (z3.is_not(f) and f.arg(0).eq(c)):
+                continue
+            self.fact(f)
+        return True
+
+    def _same_or_fail(self, a, b):
+        if a == b:
+            return a
+        raise Unsupported('non-value field differs across a merged if')
 
     def ex_Compare(self, e, fr):
         left = self.eval(e.left, fr)
